@@ -382,10 +382,11 @@ pub fn c01(thorough: bool, replay: Option<String>) -> i32 {
     for s in SIGILS {
         calls.extend(calls_cases(Some(s), if thorough { 3 } else { 2 }));
         calls.extend(nested_cases(Some(s)));
+        calls.extend(many_helpers_cases(Some(s), if thorough { 16 } else { 9 }));
     }
     let n = calls.len() as u64;
     let (st, capped) = par_range(n, 8, cap, || (), |_, st, i| check_c01_case(st, &calls[i as usize], "CALLS"));
-    rep.add_sub("CALLS", "recursion, mutual recursion, nested (mod ...) forms applied with `a` (outer helper kind x inner helper kind incl. a reused function name x 4 positions), constant/zero-argument calls inside helpers, every defun/inline assignment of call chains with a &rest tail at every call site, and every (parameters 1..4, given 0..n) combination of a &rest call with missing positional arguments, x 6 sigils x 2 option sets", n, true, capped, st);
+    rep.add_sub("CALLS", "recursion, mutual recursion, modules with 1..9 (thorough 16) helpers in three kind mixes, lambdas capturing 1..4 variables (applied directly and through a helper), nested (mod ...) forms applied with `a` (outer helper kind x inner helper kind incl. a reused function name x 4 positions), constant/zero-argument calls inside helpers, every defun/inline assignment of call chains with a &rest tail at every call site, and every (parameters 1..4, given 0..n) combination of a &rest call with missing positional arguments, x 6 sigils x 2 option sets", n, true, capped, st);
 
     let n = sp.kernel.len() as u64 * ns;
     let (st, capped) = par_range(n, 16, cap, || (), |_, st, i| {
@@ -685,6 +686,7 @@ pub fn c02(thorough: bool, replay: Option<String>) -> i32 {
     }
     cases.extend(calls_cases(None, if thorough { 3 } else { 2 }));
     cases.extend(nested_cases(None));
+    cases.extend(many_helpers_cases(None, if thorough { 12 } else { 5 }));
     cases.extend(lookalike_cases(None, thorough, if thorough { &["main-body", "function-body", "defconst", "inline-argument"] } else { &["main-body"] }));
     for e in kernel_exprs(1) {
         cases.push(kernel_case(&e, 0, None));
